@@ -23,126 +23,130 @@ def archetype_methods(prog):
 
 @rule('P4', props=['C01', 'C02', 'C13', 'C05'], floor=2)
 def p4_swap_remove_fixup(prog):
-    """Wherever the archetype's identifier column is swap_removed at `index`, the entity that the
-    swap moves into `index` gets its location index updated: guard equivalent to index < oldlen-1,
-    identifier = the old last row (read before the swap) or row `index` (read after it), new index =
-    `index`."""
+    """Wherever the archetype's identifier column is swap_removed at `index`, the entity that the swap moves into
+    `index` gets its location index updated — exactly when there is one: for row counts L and indices i < L the
+    path conditions of every CFG path are evaluated (index := i, length := L, Vec lengths before/after the swap,
+    `get(i)`/`last()` being Some), and on the feasible paths a `modify_location_index_unchecked(moved id, index)`
+    must be present iff i < L-1, where the moved id is row L-1 read before the swap or row i read after it.
+    Any way of writing the guard (`index < len-1`, `index + 1 < len`, `index != len-1`, post-swap `get(index)`,
+    `if let Some(..)`) is decided by this evaluation rather than matched."""
     r = Result()
+    ei = adt_field_index(prog, 'archetype::Archetype', 'entity_identifiers')
+    li = adt_field_index(prog, 'archetype::Archetype', 'length')
+    S = pathsem.strip_refs
     for f in archetype_methods(prog):
-        body = f.body
-        swaps = [(b, t) for b, t in body.calls() if is_ident_vec_call(body, t, ('swap_remove',))]
-        if not swaps:
+        if not any(is_ident_vec_call(f.body, t, ('swap_remove',)) for b_, t in f.body.calls()):
             continue
-        r.inst('%s: %d swap_remove on the identifier column' % (f.path, len(swaps)))
         key = f.path
-        length_field = adt_field_index(prog, 'archetype::Archetype', 'length')
-        # writes to self.length
-        lwrites = [(b, i) for b, i, s in body.stmts() if s['k'] == 'assign' and s['place']['p']
-                   and receiver_name(prog, body, {'copy': s['place']}) == 'self.length']
-        for sb, st in swaps:
-            idx_arg = st['args'][1]
-            idx_acc = normalize_access(access_of_place(body, op_place(idx_arg)))
-            mlis = [(b, t) for b, t in body.calls(lambda c: c['name'] == 'modify_location_index_unchecked')]
-            if not mlis:
-                r.viol('P4', key + '/no-fixup', f.loc(st['ln']),
-                       'identifier column is swap_removed but the moved entity\'s location index is never updated')
-                continue
+        E = pathsem.analyse(prog, f)
+        rets = [p for p in E.paths if p.ended == 'return']
+        rep = set()
 
-            def atomizer(kind, payload, pos, body=body):
-                if kind == 'place':
-                    name = access_field_names(prog, body, normalize_access(access_of_place(body, payload)))
-                    if name == 'self.length':
-                        dec = any(pos_after(body, pos, w) for w in lwrites)
-                        return Lin({'oldlen': 1}, -1 if dec else 0)
-                    return name
-                if kind == 'call':
-                    fn = payload['f']
-                    if 'path' in fn and fn['name'] == 'len' and payload['args']:
-                        at = peel_refs(body.place_ty(op_place(payload['args'][0])))
-                        if at is not None and ty_mentions(at, lambda n: is_adt(n, ID_T)):
-                            after = pos_after(body, pos, (sb, None))
-                            return Lin({'oldlen': 1}, -1 if after else 0)
-                return None
-            se = SymEval(prog, body, atomizer)
-            for mb, mt in mlis:
-                # new index argument must be the same `index`
-                new_idx = normalize_access(access_of_place(body, op_place(mt['args'][2]))) if op_place(mt['args'][2]) else None
-                if new_idx is None or new_idx.key() != idx_acc.key():
-                    r.viol('P4', key + '/wrong-new-index', f.loc(mt['ln']),
-                           'location fix-up does not store the swap_remove index as the moved entity\'s new index')
-                # guard: find the bool switch whose true edge dominates the fix-up
-                guard = None
-                for b in range(body.n):
-                    t = body.term(b)
-                    if t['k'] == 'switch' and t['discr_ty'].get('name') == 'bool':
-                        cl = op_local(t['discr'])
-                        for (gb, tt, ft) in switch_on(body, cl):
-                            if body.edge_dominates((gb, tt), mb) and not body.edge_dominates((gb, ft), mb):
-                                c = se.condition(cl)
-                                guard = (gb, tt, ft, c, True)
-                            elif body.edge_dominates((gb, ft), mb) and not body.edge_dominates((gb, tt), mb):
-                                c = se.condition(cl)
-                                guard = (gb, tt, ft, c, False)
-                if guard is None:
-                    r.viol('P4', key + '/unguarded-fixup', f.loc(mt['ln']),
-                           'location fix-up is not guarded by a comparison of index with the row count')
+        def once(k, ln, msg, key=key, f=f, rep=rep):
+            if k not in rep:
+                rep.add(k)
+                r.viol('P4', key + '/' + k, f.loc(ln), msg)
+        if E.truncated or not rets:
+            once('not-analysable', None, 'path enumeration cut off')
+            continue
+        me = ('p', 1, f.body.local_name(1) or 'self')
+        idx_p = ('p', f.body.arg_local('index'), 'index')
+        oldlen = ('f', ('d', me), li, 'archetype::Archetype')
+
+        def is_idvec(t):
+            return pathsem.mentions(t, lambda u: pathsem.is_field_of(u, 'archetype::Archetype', ei) and pathsem.mentions(u, lambda w: w == me))
+        n_swaps = 0
+        for p in rets:
+            sw = [e for e in p.calls(lambda e: e['name'] == 'swap_remove' and e['path'].startswith('alloc::vec')) if is_idvec(e['args'][0])]
+            n_swaps += len(sw)
+            if len(sw) != 1:
+                once('swap-count', None, 'expected exactly one swap_remove of the identifier column per path (found %d)' % len(sw))
+                continue
+            if S(sw[0]['args'][1]) != idx_p:
+                once('swap-index', sw[0]['ln'], 'the identifier column is not swap_removed at `index`')
+        r.inst('%s: swap_remove on the identifier column on %d path(s)' % (f.path, len(rets)))
+        if rep:
+            continue
+        for L in (1, 2, 3, 6):
+            for i in sorted({0, L // 2, L - 1}):
+                feas = []
+                for p in rets:
+                    sw = [e for e in p.calls(lambda e: e['name'] == 'swap_remove' and e['path'].startswith('alloc::vec')) if is_idvec(e['args'][0])][0]
+                    sw_epoch = sw['epoch']
+
+                    def vlen(t):
+                        """length of the identifier Vec as seen by the pure call term t"""
+                        return L if (len(t) > 4 and t[4] is not None and t[4] <= sw_epoch) else L - 1
+
+                    def leaf(t):
+                        if t == idx_p:
+                            return i
+                        if t == oldlen or (t[0] == 'd' and t[1:] == oldlen[1:]):
+                            return L
+                        if t[0] == 'call' and t[1].rsplit('::', 1)[-1] == 'len' and is_idvec(t):
+                            return vlen(t)
+                        if t[0] == 'call' and t[1].rsplit('::', 1)[-1] == 'is_empty' and is_idvec(t):
+                            return int(vlen(t) == 0)
+                        return None
+                    ok = True
+                    for a_, v in p.conds:
+                        if isinstance(v, tuple):
+                            continue
+                        val = None
+                        if a_[0] == 'discr' and isinstance(a_[1], tuple) and a_[1][0] == 'call' and is_idvec(a_[1]):
+                            c = a_[1]
+                            nm = c[1].rsplit('::', 1)[-1]
+                            if nm in ('last', 'first', 'last_mut', 'first_mut', 'pop'):
+                                val = int(vlen(c) > 0)
+                            elif nm in ('get', 'get_mut') and len(c[2]) == 2:
+                                k_ = pathsem.evaluate(c[2][1], leaf)
+                                val = None if k_ is None else int(k_ < vlen(c))
+                            if val is not None and val != v:
+                                ok = False
+                                break
+                            continue
+                        val = pathsem.evaluate(a_, leaf)
+                        if val is not None and bool(val) != bool(v):
+                            ok = False
+                            break
+                    if ok:
+                        feas.append((p, sw, leaf, vlen))
+                if not feas:
+                    once('wrong-guard', None, 'no path is feasible for index=%d with %d rows' % (i, L))
                     continue
-                gb, tt, ft, c, on_true = guard
-                ok = False
-                if c is not None:
-                    op, lin, pos = c
-                    if not on_true:
-                        op = {'Lt': 'Ge', 'Le': 'Gt', 'Gt': 'Le', 'Ge': 'Lt', 'Eq': 'Ne', 'Ne': 'Eq'}[op]
-                    idx_name = access_field_names(prog, body, idx_acc)
-                    want = Lin({idx_name: 1, 'oldlen': -1}, 1)          # index - (oldlen-1)
-                    if op in ('Lt', 'Ne') and lin == want:
-                        ok = True
-                    if op == 'Le' and lin == want + Lin.k(1):
-                        ok = True
-                    if op in ('Gt', 'Ne') and lin == want.scale(-1):
-                        ok = True
-                    if op == 'Ge' and lin == want.scale(-1) + Lin.k(1):
-                        ok = True
-                if not ok:
-                    r.viol('P4', key + '/wrong-guard', f.loc(mt['ln']),
-                           'fix-up guard is not equivalent to `index < rows_before_removal - 1` (got %s %s 0 with oldlen = row count on entry)' % (c[0] if c else '?', c[1] if c else '?'))
-                # every path from entry to the swap (pre-swap idiom) or to return (post-swap) passes the guard,
-                # and on the "needs fix-up" edge passes the fix-up call
-                need_edge = (gb, tt) if on_true else (gb, ft)
-                ends = body.return_blocks()
-                if not body.must_pass(need_edge[1], [mb], ends):
-                    r.viol('P4', key + '/fixup-skippable', f.loc(mt['ln']),
-                           'a path on which the removed row is not the last row reaches return without the location fix-up')
-                if gb not in body.dominators().get(sb, ()) and sb not in body.dominators().get(gb, ()):
-                    r.viol('P4', key + '/guard-not-on-swap-path', f.loc(st['ln']), 'swap_remove and the fix-up guard are on different paths')
-                # identifier argument: pre-swap last() / post-swap [index]
-                id_local = op_local(mt['args'][1])
-                src = None
-                seeds = set()
-                for b, t in body.calls():
-                    if is_ident_vec_call(body, t, ('last', 'get_unchecked', 'get', 'index', 'last_mut', 'get_unchecked_mut')) \
-                       or (t['f'].get('name') in ('last', 'get_unchecked', 'index') and t['args'] and ty_mentions(body.place_ty(op_place(t['args'][0])) or {}, lambda n: is_adt(n, ID_T))):
-                        if id_local in derived(body, {t['dest']['l']}):
-                            src = (b, t)
-                if src is None:
-                    r.viol('P4', key + '/fixup-id-unknown', f.loc(mt['ln']),
-                           'cannot see the moved entity\'s identifier being read from the identifier column')
-                    continue
-                b, t = src
-                pre = not pos_after(body, (b, None), (sb, None))
-                nm = t['f']['name']
-                if nm.startswith('last'):
-                    if not pre:
-                        r.viol('P4', key + '/last-after-swap', f.loc(t['ln']),
-                               'the moved entity is identified by `.last()` read after the swap_remove: that is a different row')
-                else:
-                    # indexed read: pre-swap must be oldlen-1, post-swap must be index
-                    which = se.operand(t['args'][1], (b, None)) if len(t['args']) > 1 else None
-                    idx_name = access_field_names(prog, body, idx_acc)
-                    good = (which == Lin({'oldlen': 1}, -1)) if pre else (which == Lin({idx_name: 1}, 0))
-                    if not good:
-                        r.viol('P4', key + '/wrong-row', f.loc(t['ln']),
-                               'the moved entity\'s identifier is read from row %s %s the swap_remove' % (which, 'before' if pre else 'after'))
+                for p, sw, leaf, vlen in feas:
+                    fixes = p.calls(lambda e: e['name'] == 'modify_location_index_unchecked')
+                    if i < L - 1:
+                        if not fixes:
+                            once('no-fixup' if not any(q.calls(lambda e: e['name'] == 'modify_location_index_unchecked') for q in rets) else 'wrong-guard', sw['ln'],
+                                 'index=%d of %d rows: the last row is swapped into `index` but its entity\'s location index is not updated (guard equivalent to index < rows - 1 expected)' % (i, L))
+                            continue
+                        if len(fixes) > 1:
+                            once('wrong-guard', fixes[1]['ln'], 'the moved entity\'s location is updated more than once')
+                        fx = fixes[0]
+                        ni = pathsem.evaluate(fx['args'][2], leaf)
+                        if ni != i:
+                            once('wrong-new-index', fx['ln'], 'location fix-up does not store the swap_remove index as the moved entity\'s new index (index=%d of %d rows: stores %s)' % (i, L, ni))
+                        ident = S(fx['args'][1])
+                        reads = [t for t in pathsem.subterms(ident) if t[0] == 'call' and is_idvec(t) and t[1].rsplit('::', 1)[-1] in ('last', 'get', 'get_unchecked', 'index', 'first', 'get_mut', 'get_unchecked_mut', 'last_mut')]
+                        okid = False
+                        for t in reads:
+                            nm = t[1].rsplit('::', 1)[-1]
+                            before = vlen(t) == L
+                            if nm.startswith('last'):
+                                row = vlen(t) - 1
+                            elif nm.startswith('first'):
+                                row = 0
+                            else:
+                                row = pathsem.evaluate(t[2][1], leaf) if len(t[2]) > 1 else None
+                            if (before and row == L - 1) or ((not before) and row == i):
+                                okid = True
+                        if not okid:
+                            once('wrong-identifier', fx['ln'], 'the entity whose location is fixed up is not the one the swap moves (row rows-1 before the swap / row `index` after it)')
+                    else:
+                        if fixes:
+                            once('unguarded-fixup' if all(q.calls(lambda e: e['name'] == 'modify_location_index_unchecked') for q in rets) else 'wrong-guard', fixes[0]['ln'],
+                                 'index=%d is the last of %d rows: nothing is swapped in, yet a location index is rewritten' % (i, L))
     return r
 
 
@@ -291,7 +295,9 @@ def p3_delete_frees(prog):
         if f.path == 'archetype::Archetype::<R>::clear':
             E = pathsem.analyse(prog, f)
             ei = adt_field_index(prog, 'archetype::Archetype', 'entity_identifiers')
-            S = pathsem.strip_refs
+
+            def S(t):
+                return pathsem.canon(pathsem.strip_refs(t))
             n_el = n_free = 0
             bad = None
             for p in E.paths:
@@ -302,7 +308,7 @@ def p3_delete_frees(prog):
                     if isinstance(a_, tuple) and ((a_[0] == 'next' and v == 1) or (a_[0] == 'nonempty' and v is True)):
                         root = pathsem.iter_chain(a_[1])[0]
                         if pathsem.mentions(root, lambda t: pathsem.is_field_of(t, 'archetype::Archetype', ei)):
-                            els.append(('elem', a_[1]) + tuple(a_[2:3] if a_[0] == 'next' else ()))
+                            els.append(pathsem.canon(('elem', a_[1]) + tuple(a_[2:3] if a_[0] == 'next' else ())))
                 frees = p.calls(lambda e: e['name'] == 'free_unchecked')
                 n_el += len(els)
                 n_free += len(frees)
